@@ -452,7 +452,7 @@ pub fn run(ctx: &mut Ctx) -> (&'static str, String, bool) {
         let dir = temp_dir();
         // every entry point that reads from disk must agree with the in-memory parser: same value, or an error -
         // never a panic, never a value where the parser refuses
-        let mut via_disk = |fmt: Fmt, bytes: &[u8], tag: &str, what: &str, p: &mut Part| {
+        let via_disk = |fmt: Fmt, bytes: &[u8], tag: &str, what: &str, p: &mut Part| {
             let path = dir.join(format!("t{}-{tag}.{}", std::process::id(), if fmt == Fmt::Pth { "pth" } else { "smx" }));
             if std::fs::write(&path, bytes).is_err() {
                 p.count("temp_file_not_writable", 1);
